@@ -268,15 +268,17 @@ Proof. exact lazy_provided_within_ledger. Qed.
 Print Assumptions C01_lazy_provided_within_ledger.
 
 (* why: a class whose specification does not exist yet holds exactly what the specification
-   will contain when implementedBy creates it (every call that changes a specification creates
-   it first); an existing specification points only to existing ones; an instance with its own
+   will contain when implementedBy creates it (declared = () and inherit, or the interfaces of
+   an old-style __implemented__ attribute and inherit = None; every call that changes a
+   specification creates it first); an existing specification that inherits points only to
+   existing ones; an instance with its own
    __provides__ has a class specification *)
 Theorem C01_lazy_invariant : forall g qs,
   let z := zrun g qs in
   (forall c r, nth_error (classes (fst z)) c = Some r -> zcreated (snd z) c = false ->
-     c_decl r = [] /\ c_inherit r = true /\ c_cprov r = []) /\
-  (forall c r b, zcreated (snd z) c = true -> nth_error (classes (fst z)) c = Some r -> In b (c_bases r) ->
-     zcreated (snd z) b = true) /\
+     (c_inherit r = true -> c_decl r = []) /\ c_cprov r = []) /\
+  (forall c r b, zcreated (snd z) c = true -> nth_error (classes (fst z)) c = Some r -> c_inherit r = true ->
+     In b (c_bases r) -> zcreated (snd z) b = true) /\
   (forall o r k, nth_error (insts (fst z)) o = Some r -> i_prov r = Some k -> zcreated (snd z) (i_cls r) = true).
 Proof. exact lazy_invariant. Qed.
 Print Assumptions C01_lazy_invariant.
@@ -297,7 +299,7 @@ Print Assumptions C01_generated_implementedBy_eq_model.
    metaclass that implements I1. *)
 Definition ex_g : igraph := [[]; [0]; []].
 Definition ex_ops : list op :=
-  [NewClass [] None false; Implementer 0 [AI 1]; NewClass [] (Some [1]) false; NewClass [0; 1] None false; NewInstance 2;
+  [NewClass [] None false None; Implementer 0 [AI 1]; NewClass [] (Some [1]) false None; NewClass [0; 1] None false None; NewInstance 2;
    DirectlyProvides (TInst 0) [AI 0; AI 2];      (* I0 is redundant (C2 inherits I1 from C0): dropped *)
    ClassImplementsOnly 0 [AI 2];              (* the base is narrowed: the shared declaration is evicted *)
    NewInstance 2; DirectlyProvides (TInst 1) [AI 0; AI 2];  (* same arguments: now I0 is kept, I2 dropped *)
@@ -329,8 +331,8 @@ Qed.
    query until an instance of C2 is asked: implementedBy(C2) then creates C2, C1 (C0 exists since
    it was declared on); C3 stays without specification; a built-in type. *)
 Definition lazy_qs : list zop :=
-  [ZOp (NewClass [] None false); ZOp (Implementer 0 [AI 1]); ZOp (NewClass [0] None false);
-   ZOp (NewClass [1] None false); ZOp (NewClass [] None false); ZOp (NewInstance 2);
+  [ZOp (NewClass [] None false None); ZOp (Implementer 0 [AI 1]); ZOp (NewClass [0] None false None);
+   ZOp (NewClass [1] None false None); ZOp (NewClass [] None false None); ZOp (NewInstance 2);
    ZQProvidedBy (TCls 2); ZQDirectlyProvidedBy (TInst 0)].
 
 Example C01_lazy_witness :
@@ -344,7 +346,7 @@ Proof. vm_compute. repeat split; reflexivity. Qed.
 (* a built-in type and an instance of it: declarations on the class work (through
    BuiltinImplementationSpecifications), object-level declarations raise and change nothing *)
 Example C01_builtin_witness :
-  let ops := [NewClass [] None true; NewInstance 0; Implementer 0 [AI 1]] in
+  let ops := [NewClass [] None true None; NewInstance 0; Implementer 0 [AI 1]] in
   let st := run true ex_g ops in
   provided ex_g st (TInst 0) = [1; 0] /\
   exc_code ex_g st (step true ex_g st (DirectlyProvides (TInst 0) [AI 2])) (DirectlyProvides (TInst 0) [AI 2]) = 3 /\
@@ -356,7 +358,7 @@ Proof. vm_compute. repeat split; reflexivity. Qed.
    classImplements(C1, providedBy(o0)) expand, at the moment of the call, into the interfaces the
    object names; later changes of o0 do not follow *)
 Example C01_argument_objects_witness :
-  let ops := [NewClass [] None false; Implementer 0 [AI 0]; NewInstance 0; NewInstance 0; NewClass [] None false;
+  let ops := [NewClass [] None false None; Implementer 0 [AI 0]; NewInstance 0; NewInstance 0; NewClass [] None false None;
               DirectlyProvides (TInst 0) [AI 1; AI 2];                       (* I1 kept (extends I0), I2 kept *)
               AlsoProvides (TInst 1) [ADirectlyProvidedBy (TInst 0); AI 0];  (* I1, I2 and the redundant I0 *)
               ClassImplements 1 [AProvidedBy (TInst 0)];                    (* I1, I2 and C0's I0 *)
@@ -364,4 +366,18 @@ Example C01_argument_objects_witness :
   let st := run true ex_g ops in
   dpb st (TInst 1) = [1; 2] /\ implemented ex_g st 1 = [1; 0; 2; 0] /\ dpb st (TInst 0) = [] /\
   nargs (run true ex_g (firstn 6 ops)) [AProvidedBy (TInst 0); ADirectlyProvidedBy (TInst 1)] = [1; 2; 0].
+Proof. vm_compute. repeat split; reflexivity. Qed.
+
+(* old-style ``__implemented__ = (I1, I2)`` class attribute on C1(C0): the first implementedBy makes
+   it declared = [I1; I2], inherit = None — C0's I2... nothing is inherited — and the usual calls
+   then apply: classImplements adds to it, a new-style subclass inherits it *)
+Example C01_oldstyle_witness :
+  let ops := [NewClass [] None false None; Implementer 0 [AI 2];
+              NewClass [0] None false (Some [1]); NewClass [1] None false None; NewInstance 1] in
+  let st := run true ex_g ops in
+  implemented ex_g st 1 = [1; 0] /\ implemented ex_g st 2 = [1; 0] /\ provided ex_g st (TInst 0) = [1; 0] /\
+  implemented ex_g (step true ex_g st (ClassImplements 1 [AI 2])) 1 = [1; 0; 2] /\
+  implemented ex_g (step true ex_g st (ClassImplementsOnly 1 [AI 2])) 2 = [2] /\
+  snd (zrun ex_g (map ZOp ops ++ [ZQImplementedBy 1])) = [true; true; false] /\
+  snd (zrun ex_g (map ZOp ops ++ [ZQProvidedBy (TInst 0)])) = [true; true; false].
 Proof. vm_compute. repeat split; reflexivity. Qed.
